@@ -120,6 +120,7 @@ class C07(Check):
         ctx.phase(c07_inner.corr_inner, self, ctx, c, rng)
         ctx.phase(c07_inner.corr_css_concrete, self, ctx, c, rng)
         ctx.phase(c07_inner.corr_css_stream, self, ctx, c, rng)
+        ctx.phase(c07_inner.corr_css_reset, self, ctx, c, rng)
         ctx.phase(self.oracle_spec, ctx, c, rng)
         ctx.phase(self.oracle_roundtrip_chunking, ctx, c, rng)
 
@@ -468,6 +469,15 @@ class C07(Check):
             except UnicodeError:
                 got = None
             return got != one
+        if finding['id'] == c07_inner.RESET_FINDING:
+            d = c.IncrementalDecoder()
+            d.decode(bytes.fromhex(w['docs'][0][0]), True)
+            d.reset()
+            try:
+                got = d.decode(bytes.fromhex(w['docs'][1][0]), True)
+            except UnicodeError:
+                got = None
+            return got != c.IncrementalDecoder().decode(bytes.fromhex(w['docs'][1][0]), True)
         return True
 
     def replay(self, ctx, data):
